@@ -418,3 +418,30 @@ Definition sim_totals (fixed : bool) (n : nat) (m : sim) : totals :=
    later) once the listening socket has been released *)
 Definition sim_closed (fixed : bool) (n : nat) (m : sim) : nat :=
   t_closed (sim_totals fixed n m) + (if listening (sst m) then 0 else pending m).
+
+(* ---- C13, connection side, on the observable totals: once the permit is revoked, every
+   response that is completed is followed (before the tasks settle) by the server closing that
+   connection -- so no connection serves a second further request -- and no completed response
+   is ever taken back.  [ts] = after each command (complete responses read by the clients,
+   connections closed by the server) as totals. *)
+Fixpoint oracle_c13_conn_walk (rev : bool) (prev : nat * nat) (cs : list cmd) (ts : list (nat * nat)) : bool :=
+  match cs, ts with
+  | [], [] => true
+  | c :: cs', t :: ts' =>
+      let rev' := rev || match c with KRevoke => true | _ => false end in
+      (fst prev <=? fst t) && (snd prev <=? snd t) &&
+      (if rev then (fst t - fst prev <=? snd t - snd prev) else true) &&
+      oracle_c13_conn_walk rev' t cs' ts'
+  | _, _ => false
+  end.
+Definition oracle_c13_conn (cs : list cmd) (ts : list (nat * nat)) : bool :=
+  oracle_c13_conn_walk false (0, 0) cs ts.
+
+(* the model's totals after each command of a scenario *)
+Fixpoint totals_cmds (fixed full : bool) (n : nat) (m : sim) (cs : list cmd) : list (nat * nat) :=
+  match cs with
+  | [] => []
+  | c :: r =>
+      let m1 := do_cmd fixed full n m c in
+      (t_done (sim_totals fixed n m1), sim_closed fixed n m1) :: totals_cmds fixed full n m1 r
+  end.
